@@ -767,8 +767,10 @@ func (c *Client) Authenticate(username, password string) (User, error) {
 	au, ok := c.authCache[username]
 	c.mu.RUnlock()
 	if ok {
-		// verify the password using the cached salt and hash
-		if bytes.Equal(c.hashWithSalt(au.salt, password), au.hash) {
+		// verify the password using the cached salt and hash; the entry only counts
+		// if it was checked against the hash the user has now (a metadata update may
+		// have landed between reading the user and storing the entry)
+		if au.bhash == userInfo.Hash && bytes.Equal(c.hashWithSalt(au.salt, password), au.hash) {
 			return userInfo, nil
 		}
 
